@@ -2,7 +2,7 @@
 """C20 - diagnostics name the construct that is actually wrong.
 E-input: single-fault mutants with a unique planted token (semantic faults at every declaration position,
 lexical faults at every token gap) x warning-class switches; oracle on the stderr of check-express."""
-import sys, os, json, re
+import sys, os, json, re, itertools
 sys.path.insert(0, '/verif')
 from vlib import common, build, gfam, exptools
 
@@ -61,7 +61,7 @@ def lexical_mutants(name, text, step=1):
 
 def run_case(case):
     args = list(case.get('args', ('-w', 'all')))
-    r = exptools.run_tool(case.get('tool', 'check-express'), case['text'].encode('latin1'), args=args, timeout=60, fname='zq_input_file.exp')
+    r = exptools.run_tool(case.get('tool', 'check-express'), case['text'].encode('latin1'), args=args, timeout=60, fname='zq_input_file.exp', extra_files=case.get('extra_files'))
     return {'rc': r.rc, 'out': r.out.decode('latin1'), 'errors': r.errors, 'warnings': r.warnings}
 
 
@@ -110,7 +110,7 @@ def judge(case, res):
     cls = case['cls']
     if rc is None or rc < 0 or rc > 125:
         return [('abnormal-exit/%s/%s' % (cls, rc), 'check-express ended with status %s: %s' % (rc, res['out'][-200:]))]
-    text_l = case['text'].lower()
+    text_l = (case['text'] + ''.join(case.get('extra_files', {}).values())).lower()
     diags = []
     for l in res['out'].split('\n'):
         m = DIAG.match(l)
@@ -217,7 +217,7 @@ def main():
                 continue
             c = {'kind': 'semantic', 'cls': cls, 'detail': detail, 'planted': planted, 'name': name, 'text': mt}
             if cls in ('subtype-cycle', 'select-cycle'):
-                c['planted_alts'] = ['zq_cyc1', 'zq_cyc2', 'zq_cyc3', 'zq_sel1', 'zq_sel2', 'zq_sel3']
+                c['planted_alts'] = ['zq_cyc1', 'zq_cyc2', 'zq_cyc3', 'zq_sel1', 'zq_sel2', 'zq_sel3', 'zq_sc1', 'zq_sc2', 'zq_sc3']
             if cls == 'subtype-missing-supertype':
                 c['planted_alts'] = ['zq_sub', 'zq_sup']
             if cls == 'inherited-attribute-redeclared':
@@ -231,13 +231,30 @@ def main():
             cases.append(c)
     # wrong argument counts
     mf = dict(valid)['m_func']
-    for old, new, fn, used, exp in (('g (v, 3)', 'g (v)', 'g', 1, 2), ('g (v, 3)', 'g (v, 3, 4)', 'g', 3, 2), ('h ([v, v])', 'h ([v, v], 1)', 'h', 2, 1)):
+    for old, new, fn, used, exp in (('g (v, 3)', 'g (v)', 'g', 1, 2), ('g (v, 3)', 'g (v, 3, 4)', 'g', 3, 2), ('h ([v, v])', 'h ([v, v], 1)', 'h', 2, 1),
+                                    ('g (v, 3)', 'v + g', 'g', 0, 2), ('h ([v, v])', 'h', 'h', 0, 1)):
         cases.append({'kind': 'argcount', 'cls': 'wrong-arg-count', 'detail': new, 'planted': fn, 'used': used, 'expected': exp, 'name': 'm_func', 'text': mf.replace(old, new)})
+    # schemas living in files of their own (found through EXPRESS_PATH): a fault planted in the k-th of three external files must be reported
+    # under that file's name, whichever file the tool looked up last
+    ext = lambda n, bad: 'SCHEMA ext_%s;\nENTITY thing_%s;\n  x : %s;\nEND_ENTITY;\nEND_SCHEMA;\n' % (n, n, 'zq_missing_in_%s' % n if bad else 'INTEGER')
+    for order in itertools.permutations('abc'):
+        for badn in 'abc':
+            main = 'SCHEMA zq_main;\n' + ''.join('REFERENCE FROM ext_%s (thing_%s);\n' % (n, n) for n in order) + 'ENTITY top;\n' + ''.join('  f%s : thing_%s;\n' % (n, n) for n in order) + 'END_ENTITY;\nEND_SCHEMA;\n'
+            cases.append({'kind': 'multi-file', 'cls': 'undefined-type', 'detail': 'in ext_%s, order %s' % (badn, ''.join(order)), 'planted': 'zq_missing_in_' + badn, 'name': 'files', 'text': main,
+                          'extra_files': {'ext_%s.exp' % n: ext(n, n == badn) for n in 'abc'}, 'expect_file': 'ext_%s.exp' % badn})
     results = common.pmap(run_case, cases, chunksize=8)
     for c, res in zip(cases, results):
         chk.count(states=1, transitions=1)
-        chk.cls(c['cls'])
+        chk.cls(c['cls'] if c['kind'] != 'multi-file' else 'multi-file')
         v = judge(c, res)
+        if c['kind'] == 'multi-file':
+            v = [x for x in v if not x[0].startswith('not-attributed')]
+            named = [l for l in res['out'].split('\n') if c['planted'] in l]
+            if not named:
+                v.append(('multi-file/not-reported', 'the undefined type %s in %s is not reported: %s' % (c['planted'], c['expect_file'], res['out'][-200:])))
+            for l in named:
+                if not re.search(r'(^|/)%s:\d+:' % re.escape(c['expect_file']), l):
+                    v.append(('multi-file/attributed-to-another-file', 'the fault is in %s, the diagnostic says: %s' % (c['expect_file'], l.strip()[-160:])))
         if not v:
             chk.outcome('named-correctly' if res.get('_expected_seen') else ('other-diagnostic' if res.get('_n') else 'no-diagnostic'))
             first = next((l for l in res['out'].split('\n') if DIAG.match(l)), '')
